@@ -3,8 +3,8 @@ NS = 2
 MaxEv = 6
 MaxUA = 2
 AllowConnLost = TRUE
-Mutant = 1
+Mutant = 3
 INIT Init
 NEXT Next
-INVARIANT I_Order
+INVARIANT I_Transitions
 CHECK_DEADLOCK FALSE
